@@ -459,6 +459,12 @@ class Template:
         """
         if getattr(context, "_with_template", None) is None:
             context._set_with_template(self)
+        illegal_names = self.reserved_names.intersection(kwargs)
+        if illegal_names:
+            raise exceptions.NameConflictError(
+                "Reserved words passed to render(): %s"
+                % ", ".join(sorted(illegal_names))
+            )
         runtime._render_context(self, self.callable_, context, *args, **kwargs)
 
     def has_def(self, name):
